@@ -14,6 +14,17 @@ C06 — executable model of the ordered-subset bookkeeping.
   (PoissonLogLikelihoodWithLinearModelForMeanAndProjData.cxx:490).
 * `subsetNum`, `permute` transcribe `IterativeReconstruction::get_subset_num` and
   `randomly_permute_subset_order` (IterativeReconstruction.cxx:577, :630).
+* `getSubsetNum`, `reconLoop`, `reconSchedule`, `reconSetUpOk` transcribe the state machine of
+  `IterativeReconstruction::get_subset_num` (the member `_current_subset_array`, regenerated when
+  `(subiteration_num - 1) % num_subsets == 0`), the loop of `IterativeReconstruction::reconstruct`
+  (IterativeReconstruction.cxx:402) and the parameter checks of `set_start_subset_num` / `set_up` (:286, :432)
+  together with the balance tests of `PoissonLogLikelihoodWithLinearModelForMean::set_up`
+  (PoissonLogLikelihoodWithLinearModelForMean.cxx:275) and `OSMAPOSLReconstruction::set_up` (OSMAPOSLReconstruction.cxx:284).
+* `projected` transcribes the loops of `BackProjectorByBin::back_project(const ProjData&, subset, n)`
+  (BackProjectorByBin.cxx:186) and `ForwardProjectorByBin::forward_project(ProjData&, subset, n, zero)`
+  (ForwardProjectorByBin.cxx:171): basic pairs of the subset x TOF bins `min..max` x related pairs.
+* `resolveMaxSeg`, `balancedAfterSetUp` transcribe what `set_up_before_sensitivity`
+  (PoissonLogLikelihoodWithLinearModelForMeanAndProjData.cxx:586) does to `max_segment_num_to_process`.
 
 Core Lean only.  C `int` division/modulo on the (non-negative) operands that occur is `Int.tdiv/tmod`;
 `>> 1` on `num_views` is `/ 2`.
@@ -126,5 +137,80 @@ def permuteAux : List Nat → List Nat → List Nat
     | none => []          -- temp exhausted (more draws than subsets)
 
 def permute (n : Nat) (draws : List Nat) : List Nat := permuteAux (List.range n) draws
+
+/-! ### the schedule of a whole run: `IterativeReconstruction::reconstruct` -/
+
+/-- what `get_subset_num` keeps between calls: `_current_subset_array` (empty until first generated) and the number of
+    `rand()` calls made so far -/
+structure SchedState where
+  arr : List Nat
+  pos : Nat
+  deriving Repr, DecidableEq
+
+/-- `IterativeReconstruction::get_subset_num` (IterativeReconstruction.cxx:630) at `subiteration_num = s ≥ 1`.
+    `draw j` is the value `(int)((float)rand()/RAND_MAX * (n - j % n))` of the `j`-th call of `rand()`.
+    Result `none`: `_current_subset_array` is indexed outside its range (it has length 0 until the first sub-iteration
+    with `(s - 1) % n = 0`): undefined behaviour in the C++. -/
+def getSubsetNum (n startSubset : Nat) (rnd : Bool) (draw : Nat → Nat) (st : SchedState) (s : Nat) :
+    SchedState × Option Nat :=
+  let st' : SchedState :=
+    if rnd && (s - 1) % n == 0 then
+      { arr := permute n ((List.range n).map fun i => draw (st.pos + i)), pos := st.pos + n }
+    else st
+  (st', if rnd then st'.arr[(s - 1) % n]? else some (subsetNum s startSubset n))
+
+/-- the loop `for (subiteration_num = start; subiteration_num <= num_subiterations; ++subiteration_num) update_estimate`
+    (IterativeReconstruction.cxx:414; `update_estimate` calls `get_subset_num` once): the subset of every sub-iteration -/
+def reconLoop (n startSubset : Nat) (rnd : Bool) (draw : Nat → Nat) : List Nat → SchedState → List (Option Nat)
+  | [], _ => []
+  | s :: rest, st =>
+    let r := getSubsetNum n startSubset rnd draw st s
+    r.2 :: reconLoop n startSubset rnd draw rest r.1
+
+/-- the state after the loop -/
+def reconState (n startSubset : Nat) (rnd : Bool) (draw : Nat → Nat) : List Nat → SchedState → SchedState
+  | [], st => st
+  | s :: rest, st => reconState n startSubset rnd draw rest (getSubsetNum n startSubset rnd draw st s).1
+
+/-- subset numbers used by `reconstruct` for sub-iterations `s0, …, N` (a freshly constructed reconstruction object) -/
+def reconSchedule (n startSubset : Nat) (rnd : Bool) (s0 N : Nat) (draw : Nat → Nat) : List (Option Nat) :=
+  reconLoop n startSubset rnd draw (List.range' s0 (N + 1 - s0)) ⟨[], 0⟩
+
+/-- `set_start_subset_num` (called after `set_num_subsets`) and the parameter checks of `IterativeReconstruction::set_up`
+    (`save_interval` is `num_subiterations` in the runs compared), then the two balance tests:
+    `PoissonLogLikelihoodWithLinearModelForMean::set_up` fails for unbalanced subsets without subset sensitivities,
+    `OSMAPOSLReconstruction::set_up` fails for unbalanced subsets (`bal` = `subsets_are_approximately_balanced()`). -/
+def reconSetUpOk (n startSubset s0 N : Int) (useSubsetSens bal : Bool) : Bool :=
+  decide (0 ≤ startSubset) && decide (startSubset < n)      -- set_start_subset_num
+    && decide (1 ≤ n) && decide (1 ≤ N) && decide (1 ≤ s0)   -- IterativeReconstruction::set_up
+    && (bal || useSubsetSens)                                -- objective function set_up
+    && bal                                                   -- OSMAPOSL set_up
+
+/-! ### projectors: subsets x TOF bins -/
+
+/-- `BackProjectorByBin::back_project(proj_data, subset_num, num_subsets)` and
+    `ForwardProjectorByBin::forward_project(proj_data, subset_num, num_subsets, zero)`:
+    `for (vs in find_basic_vs_nums_in_subset(…)) for (k = min_tof_pos_num … max_tof_pos_num) get/set_related_viewgrams(vs, k)`:
+    every (view/segment pair, TOF bin) whose viewgram is read (back projection) or written (forward projection) -/
+def projected (y : Sym) (minV maxV minSeg maxSeg minTof maxTof : Int) (i n : Nat) : List (VS × Int) :=
+  (basicVSInSubset y minV maxV minSeg maxSeg minTof maxTof i n).flatMap fun b =>
+    (intRange minTof maxTof).flatMap fun k => (related y b).map fun p => (p, k)
+
+/-! ### balanced flag after `set_up` -/
+
+/-- `set_up_before_sensitivity`: `max_segment_num_to_process == -1` means "all segments of the data"; a number larger
+    than the data's maximum segment is an error -/
+def resolveMaxSeg (requested dataMax : Int) : Option Int :=
+  let m := if requested == -1 then dataMax else requested
+  if m > dataMax then none else some m
+
+/-- objective function `set_up` followed by `subsets_are_approximately_balanced()`:
+    `none` = `set_up` fails (segment number too large, or unbalanced subsets without subset sensitivities) -/
+def balancedAfterSetUp (y : Sym) (minV maxV requested dataMax : Int) (n : Nat) (useSubsetSens : Bool) : Option (Bool × Int) :=
+  match resolveMaxSeg requested dataMax with
+  | none => none
+  | some m =>
+    let b := balanced y minV maxV m n
+    if !b && !useSubsetSens then none else some (b, m)
 
 end StirVerif.C06
